@@ -379,6 +379,11 @@ MetricChange ==
 \* C08/C10 (design level): abort restores exactly what was committed
 AbortRestores == [][(db' = committed /\ poisoned' = FALSE) \/ poisoned' = poisoned \/ poisoned']_vars
 
+\* C14 (design level): a build consumes a bounded number of fresh node ids; a batch loop that makes no
+\* progress (finding F7) burns one id per iteration and is caught by this bound long before the
+\* liveness check could close a lasso (the id counter makes the looping states pairwise different)
+IdsBounded == b.alloc.cur <= 16 * Cardinality(Ids)
+
 \* C14 / C20 (design level): every build ends
 BuildEnds == (b.pc # "idle") ~> (b.pc = "idle")
 =============================================================================
